@@ -189,6 +189,32 @@ func withdrawOnNormalForms(c *Ctx, fs *formSet, verbose bool) {
 			if bad > 0 || good == 0 || good < attempted[r.ID] {
 				continue
 			}
+			// a targeted form keeps the failing function and inlines what it calls: the rule must still have found
+			// something to decide in that function. If it did not, the rule's anchor (the call it looks for) was inlined
+			// away and the form decides nothing about the failing obligation.
+			if nfo.kind == "targeted" {
+				vanished := ""
+				for _, o := range c.Obls {
+					if o.Rule != r.ID || (o.Verdict != Violated && o.Verdict != Undecided) || known[o.Key()] || o.Func == "-" || o.Func == "" {
+						continue
+					}
+					found := false
+					for _, o2 := range c2.Obls {
+						if o2.Verdict == Discharged && o2.Func == o.Func {
+							found = true
+						}
+					}
+					if !found {
+						vanished = o.Func
+					}
+				}
+				if vanished != "" {
+					if verbose {
+						fmt.Fprintf(os.Stderr, "  form %s not accepted for %s: the rule decides nothing in %s on this form\n", nf.Name, r.ID, vanished)
+					}
+					continue
+				}
+			}
 			// accepted: the alarms of this rule on the source form are withdrawn
 			for k := range c.Obls {
 				o := &c.Obls[k]
